@@ -4,8 +4,12 @@ canonical results.
 
 An operand specification is JSON-able:
   {"t":"num","ty":T,"x":X}                T in int float bool f64 f32 f16 i64 i32 i16 i8 u64 u32 u16 u8
-  {"t":"nd","dt":D,"xs":[X..]}            numpy.ndarray, D in f64 f32 i64
+  {"t":"nd","dt":D,"xs":[X..]}            numpy.ndarray, D in f64 f32 i64 ("d0": true with one X: the ZERO-dimensional
+                                          array numpy.array(X); against the 1-D values of an Array it broadcasts exactly
+                                          as the one-element array does, which is what the model is given)
   {"t":"scalar","q":Q,"x":X}              Scalar.CreateWithQuantity(ObtainQuantity(OrderedDict(Q)), x)
+                                          ("cap": caption with Q = [["Unknown", "<unknown>", 1]]: the quantity is
+                                          ObtainQuantity("<unknown>", None, caption), an unknown unit that has a name)
   {"t":"array","q":Q,"kind":K,"xs":[X..]} Array.CreateWithQuantity(.., list | tuple | ndarray)
   {"t":"junk","w":W}                      W in str none list
   {"t":"array0","q":Q,"x":X}              Array.CreateWithQuantity(.., values=<the bare number X>)
@@ -94,8 +98,12 @@ def nd_subclass(priority):
     return _SUBCLASSES[priority]
 
 
-def nd_spec(dt, vs, sub=None, mask=None):
+def nd_spec(dt, vs, sub=None, mask=None, d0=False):
     np = _np()
+    if d0:
+        d = nd_spec(dt, list(vs)[:1])
+        d["d0"] = True
+        return d
     if dt == "i64":
         d = dict(t="nd", dt=dt, xs=[int(v) for v in vs])
     elif dt == "f32":
@@ -118,10 +126,20 @@ def scalar_spec(q, v):
     return dict(t="scalar", q=q, x=float(v).hex())
 
 
+UNKNOWN_Q = [["Unknown", "<unknown>", 1]]
+
+
+def captioned_scalar_spec(caption, v):
+    """a Scalar whose unit is an unknown unit carrying a caption"""
+    return dict(t="scalar", q=[list(e) for e in UNKNOWN_Q], x=float(v).hex(), cap=caption)
+
+
 # ------------------------------------------------------------------------------------------ the real side
-def quantity(q):
+def quantity(q, caption=None):
     from barril.units import ObtainQuantity
 
+    if caption:
+        return ObtainQuantity("<unknown>", None, caption)
     return ObtainQuantity(OrderedDict((c, [u, int(e)]) for c, u, e in q))
 
 
@@ -154,6 +172,8 @@ def _build(spec):
         return num_object(spec["ty"], spec["x"])
     if t == "nd":
         dt = {"f64": np.float64, "f32": np.float32, "i64": np.int64}[spec["dt"]]
+        if spec.get("d0"):
+            return np.array(val(spec["xs"][0]), dtype=dt)
         arr = np.array([val(x) for x in spec["xs"]], dtype=dt)
         sub = spec.get("sub")
         if sub == "ma":
@@ -166,7 +186,7 @@ def _build(spec):
             return arr.view(nd_subclass(50))
         return arr
     if t == "scalar":
-        return Scalar.CreateWithQuantity(quantity(spec["q"]), value=val(spec["x"]))
+        return Scalar.CreateWithQuantity(quantity(spec["q"], spec.get("cap")), value=val(spec["x"]))
     if t == "array":
         vs = [val(x) for x in spec["xs"]]
         if spec["kind"] == "tuple":
@@ -191,7 +211,10 @@ def model_operand(spec):
         return dict(t="nd", ks=[qstr(exact_of(x)) for x in spec["xs"]])
     qs = lambda q: [[str(sym(c)), str(sym(u)), str(int(e))] for c, u, e in q]
     if t == "scalar":
-        return dict(t="scalar", q=qs(spec["q"]), v=qstr(exact_of(spec["x"])))
+        d = dict(t="scalar", q=qs(spec["q"]), v=qstr(exact_of(spec["x"])))
+        if spec.get("cap"):
+            d["cap"] = str(sym(spec["cap"]))
+        return d
     if t == "array":
         return dict(t="array", q=qs(spec["q"]), kind=spec["kind"], vs=[qstr(exact_of(x)) for x in spec["xs"]])
     if t == "array0":
@@ -209,6 +232,8 @@ def render(spec):
         return "%s(%r)" % (name, val(spec["x"]))
     if t == "nd":
         base = "numpy.array(%r, dtype=%s)" % ([val(x) for x in spec["xs"]], spec["dt"])
+        if spec.get("d0"):
+            return "numpy.array(%r, dtype=%s)" % (val(spec["xs"][0]), spec["dt"])
         sub = spec.get("sub")
         if sub == "ma":
             return "numpy.ma.masked_array(%s)" % base
@@ -224,6 +249,8 @@ def render(spec):
         return "Array.CreateWithQuantity(ObtainQuantity(OrderedDict(%r)), values=%r)" % (
             [(c, [u, e]) for c, u, e in q], val(spec["x"]))
     if t == "scalar":
+        if spec.get("cap"):
+            return "Scalar(ObtainQuantity('<unknown>', None, %r), %r)" % (spec["cap"], val(spec["x"]))
         if len(q) == 1 and int(q[0][2]) == 1:
             return "Scalar(%r, %r, %r)" % (val(spec["x"]), q[0][1], q[0][0])
         return "Scalar.CreateWithQuantity(ObtainQuantity(OrderedDict(%r)), %r)" % (
@@ -252,7 +279,10 @@ def canon(r):
             return dict(err="other", detail="Scalar value of type %s" % type(v).__name__)
         if not math.isfinite(v):
             return dict(err="other", detail="nonfinite")
-        return dict(ok=dict(t="scalar", q=entries(r.GetQuantity()), vs=[v.hex()], f32=False))
+        out = dict(t="scalar", q=entries(r.GetQuantity()), vs=[v.hex()], f32=False)
+        if r.GetQuantity().GetUnknownCaption():
+            out["cap"] = r.GetQuantity().GetUnknownCaption()
+        return dict(ok=out)
     if isinstance(r, Array):
         vs = r.GetAbstractValue()
         kind = "nd" if isinstance(vs, np.ndarray) else "tuple" if isinstance(vs, tuple) else "list" if isinstance(vs, list) else None
@@ -410,6 +440,9 @@ def agree_binop(c, io, mo, notes=None):
         return "quantities differ: impl=%s model=%s" % (a["q"], [[unsym(int(x)), unsym(int(y)), z] for x, y, z in b["q"]])
     if a["t"] == "array" and a["kind"] != b["kind"]:
         return "container kinds differ: impl=%s model=%s" % (a["kind"], b["kind"])
+    cap_m = unsym(int(b["cap"])) if b.get("cap") not in (None, "0") else ""
+    if (a.get("cap") or "") != cap_m:
+        return "captions of the unknown unit differ: impl=%r model=%r" % (a.get("cap") or "", cap_m)
     t = c["_t"]
     f32 = lowest(a.get("f32"), uses_f32(t["a"]), uses_f32(t["b"]))
     pre = mo.get("pre")
